@@ -325,7 +325,7 @@ def judge(case):
 
 
 def programs(tier):
-    return G.any_valid_program(stdlib=False).map(lambda code: {'code': code})
+    return st.one_of(G.any_valid_program(stdlib=False), G.any_valid_program(stdlib=False), G.valid_commented_program()).map(lambda code: {'code': code})
 
 
 def corpus_cases(tier):
